@@ -326,3 +326,116 @@ Definition lyapunov_residual (s : solution) (cov_u : mx nu nu) (C : mx n n) : mx
   C -m (((so_Ta s *m C) *m (so_Ta s)^T) +m ((so_Pa s *m cov_u) *m (so_Pa s)^T)).
 
 End Kalman.
+
+(* implicit arguments: the carrier and the dimensions are inferred from the matrices *)
+Arguments symmetrize {M k} X.
+Arguments UP {M n} nu P cov_u u0.
+Arguments UNone {M n} cov_u u0.
+Arguments udim {M n} s.
+Arguments u_med {M n} s.
+Arguments u_cov {M n} s.
+Arguments P_times {M n} s u.
+Arguments P_u0 {M n} s.
+Arguments P_cov_u {M n} s.
+Arguments P_cov_u_Pt {M n} s.
+Arguments mkPeriod {M n nw} p_ny p_T p_K p_us p_v p_Z p_H p_D p_cov_w p_w0 p_y.
+Arguments p_ny {M n nw} p.
+Arguments p_T {M n nw} p.
+Arguments p_K {M n nw} p.
+Arguments p_us {M n nw} p.
+Arguments p_v {M n nw} p.
+Arguments p_Z {M n nw} p.
+Arguments p_H {M n nw} p.
+Arguments p_D {M n nw} p.
+Arguments p_cov_w {M n nw} p.
+Arguments p_w0 {M n nw} p.
+Arguments p_y {M n nw} p.
+Arguments frec {M n nw} p.
+Arguments mkFrec {M n nw} p f_a0 f_Q0 f_y0 f_F f_Fi f_Zt_Fi f_G f_Q1 f_pe f_a1 f_P_cov_u f_H_cov_w.
+Arguments f_a0 {M n nw p} f.
+Arguments f_Q0 {M n nw p} f.
+Arguments f_y0 {M n nw p} f.
+Arguments f_F {M n nw p} f.
+Arguments f_Fi {M n nw p} f.
+Arguments f_Zt_Fi {M n nw p} f.
+Arguments f_G {M n nw p} f.
+Arguments f_Q1 {M n nw p} f.
+Arguments f_pe {M n nw p} f.
+Arguments f_a1 {M n nw p} f.
+Arguments f_P_cov_u {M n nw p} f.
+Arguments f_H_cov_w {M n nw p} f.
+Arguments kf_step {M n nw} a1_prev Q1_prev p.
+Arguments mkFper {M n nw} fp ff.
+Arguments fp {M n nw} f.
+Arguments ff {M n nw} f.
+Arguments kf_run {M n nw} a1_prev Q1_prev ps.
+Arguments sout {M n nw} p.
+Arguments mkSout {M n nw} p s_a s_u s_w s_Q.
+Arguments s_a {M n nw p} s.
+Arguments s_u {M n nw p} s.
+Arguments s_w {M n nw p} s.
+Arguments s_Q {M n nw p} s.
+Arguments one_step_back {M n nw} x st.
+Arguments mkSper {M n nw} sx so.
+Arguments sx {M n nw} s.
+Arguments so {M n nw} s.
+Arguments smooth_back {M n nw} fs.
+Arguments smooth_all {M n nw} fs.
+Arguments update_all {M n nw} fs.
+Arguments pe_Fi_pe {M n nw} x.
+Arguments det_Fi {M n nw} x.
+Arguments log_det_F {M n nw} x.
+Arguments num_obs {M n nw} x.
+Arguments l_sum_num_obs {M} l.
+Arguments l_sum_log_det_F {M} l.
+Arguments l_sum_pe_Fi_pe {M} l.
+Arguments l_var_scale {M} l.
+Arguments l_nll {M} l.
+Arguments likelihood {M n nw} rescale_variance fs.
+Arguments contribution {M n nw} x.
+Arguments contributions {M n nw} fs.
+Arguments mkSolution {M n nw nu nyf nxi} so_Ta so_Pa so_Ka so_Za so_H so_D so_Ua so_curr_xi.
+Arguments so_Ta {M n nw nu nyf nxi} s.
+Arguments so_Pa {M n nw nu nyf nxi} s.
+Arguments so_Ka {M n nw nu nyf nxi} s.
+Arguments so_Za {M n nw nu nyf nxi} s.
+Arguments so_H {M n nw nu nyf nxi} s.
+Arguments so_D {M n nw nu nyf nxi} s.
+Arguments so_Ua {M n nw nu nyf nxi} s.
+Arguments so_curr_xi {M n nw nu nyf nxi} s.
+Arguments deviation_solution {M n nw nu nyf nxi} s.
+Arguments mkPdata {M n nw nu nyf} d_mask d_y d_std_u d_std_w d_u0 d_w0 d_v.
+Arguments d_mask {M n nw nu nyf} p.
+Arguments d_y {M n nw nu nyf} p.
+Arguments d_std_u {M n nw nu nyf} p.
+Arguments d_std_w {M n nw nu nyf} p.
+Arguments d_u0 {M n nw nu nyf} p.
+Arguments d_w0 {M n nw nu nyf} p.
+Arguments d_v {M n nw nu nyf} p.
+Arguments gen_period {M n nw nu nyf nxi} s d.
+Arguments xi_med {M n nw nu nyf nxi} s a.
+Arguments xi_var {M n nw nu nyf nxi} s Q.
+Arguments col_entries {M k} v.
+Arguments all_entries {M a b} A.
+Arguments o_predict_xi {M} p.
+Arguments o_predict_y {M} p.
+Arguments o_predict_var {M} p.
+Arguments o_predict_mse_obs {M} p.
+Arguments o_update_xi {M} p.
+Arguments o_update_u {M} p.
+Arguments o_update_w {M} p.
+Arguments o_update_var {M} p.
+Arguments o_predict_err {M} p.
+Arguments o_smooth_xi {M} p.
+Arguments o_smooth_u {M} p.
+Arguments o_smooth_w {M} p.
+Arguments o_smooth_var {M} p.
+Arguments k_periods {M} k.
+Arguments k_lik {M} k.
+Arguments k_contributions {M} k.
+Arguments k_det_Fi {M} k.
+Arguments k_pe_Fi_pe {M} k.
+Arguments out_period {M n nw nu nyf nxi} s vs up sm.
+Arguments kalman_filter {M n nw nu nyf nxi} deviation rescale_variance s init_med init_mse data.
+Arguments initialize_med {M n nw nu nyf nxi} s.
+Arguments lyapunov_residual {M n nw nu nyf nxi} s cov_u C.
